@@ -171,6 +171,12 @@ pub fn call(name: &str, a: &Args, i: &[u8]) -> Option<Out> {
                 "ccs+app" => { let _ = p.parse_record(raw(20, &[1])).map(|_| ()); let _ = p.parse_record(raw(23, &[9; 40])).map(|_| ()); }
                 "defrag" => { let _ = p.parse_record(raw(22, &[20, 0, 0, 2, 1])).map(|_| ()); let _ = p.parse_record(raw(22, &[2])).map(|_| ()); }
                 "reset" => { let _ = p.parse_record(raw(22, &[11, 0, 1, 0, 5])).map(|_| ()); p.reset(); }
+                // first records that are REFUSED (an unknown handshake type, an unregistered content type, a ServerHello of an unknown version):
+                // a refused record leaves no trace
+                "badhs" => { let _ = p.parse_record(raw(22, &[99, 0, 0, 1, 5])).map(|_| ()); }
+                "badct" => { let _ = p.parse_record(raw(0x42, &[1, 2, 3])).map(|_| ()); }
+                "defrag+badhs" => { let _ = p.parse_record(raw(22, &[20, 0, 0, 2, 1])).map(|_| ()); let _ = p.parse_record(raw(22, &[2])).map(|_| ());
+                                    let _ = p.parse_record(raw(22, &[2, 0, 0, 2, 9, 9])).map(|_| ()); }
                 _ => {}
             }
             use tls_parser::nom::{error::make_error, Err as NErr};
@@ -200,6 +206,16 @@ pub fn call(name: &str, a: &Args, i: &[u8]) -> Option<Out> {
             for (k, pc) in pieces.iter().enumerate() {
                 let rr = TlsRawRecord { hdr: TlsRecordHeader { record_type: r.hdr.record_type, version: r.hdr.version, len: pc.len() as u16 }, data: pc };
                 let res = p.parse_record(rr);
+                if k < last {
+                    // every call before the last answers Incomplete (the split statement's premise): anything else IS the answer
+                    match res {
+                        Err(NErr::Incomplete(_)) => {}
+                        Err(NErr::Error(er)) => { out = Err(NErr::Error(make_error(i, er.code))); break; }
+                        Err(NErr::Failure(er)) => { out = Err(NErr::Failure(make_error(i, er.code))); break; }
+                        Ok(_) => { out = Err(NErr::Failure(make_error(i, tls_parser::nom::error::ErrorKind::Count))); break; }
+                    }
+                    continue;
+                }
                 if k == last {
                     out = match res {
                         Ok((rem2, msgs)) => Ok((5 + n - rem2.len().min(n), pj::msgs(&msgs))),
